@@ -903,3 +903,31 @@ pub fn gen_disjoint(rng: &mut Rng, n: usize, m: usize) -> (Vec<u32>, Vec<u32>) {
     let new = (0..m).map(|_| 5000 + rng.below(a as u64) as u32).collect();
     (old, new)
 }
+
+
+/// A very fragmented pair: thousands of isolated one-item replacements between
+/// repeated items, so that an algorithm reports thousands of raw ops, and
+/// insertions next to repeats that the clean-up pass has to slide.
+pub fn gen_fragmented(rng: &mut Rng, blocks: usize) -> (Vec<u32>, Vec<u32>) {
+    let mut old = Vec::new();
+    let mut new = Vec::new();
+    for i in 0..blocks as u32 {
+        let a = rng.below(3) as u32;
+        match rng.below(8) {
+            0 => {
+                // insertion that can slide over a repeat
+                old.extend_from_slice(&[2_000_000 + i, a, a + 1]);
+                new.extend_from_slice(&[3_000_000 + i, a, a + 1, a + 1]);
+            }
+            1 => {
+                old.extend_from_slice(&[a, a]);
+                new.extend_from_slice(&[a, a, a]);
+            }
+            _ => {
+                old.extend_from_slice(&[a, 2_000_000 + i]);
+                new.extend_from_slice(&[a, 3_000_000 + i]);
+            }
+        }
+    }
+    (old, new)
+}
